@@ -515,10 +515,13 @@ Record wf (w : st) : Prop := {
   wf_pgk : forall o g, In g (ids (pgs (E w o))) -> ekind (E w g) = KPG;
   wf_pgnd : forall o, NoDup (ids (pgs (E w o)));
   wf_memnd : forall o g l, In (g, l) (pgs (E w o)) -> NoDup l;
-  wf_mempar : forall o g l d, In (g, l) (pgs (E w o)) -> In d l -> par (E w d) = o }.
+  wf_mempar : forall o g l d, In (g, l) (pgs (E w o)) -> In d l -> par (E w d) = o;
+  wf_leaf : forall x, ekind (E w x) = KPG -> ch (E w x) = [];
+  wf_bound : forall o g l, In (g, l) (pgs (E w o)) -> g < n w /\ forall d, In d l -> d < n w;
+  wf_datapar : forall p x, In x (ch (E w p)) -> ekind (E w x) = KData -> ekind (E w p) = KObject }.
 
 Arguments wf_par {w}. Arguments wf_ord {w}. Arguments wf_nodup {w}. Arguments wf_pgk {w}.
-Arguments wf_pgnd {w}. Arguments wf_memnd {w}. Arguments wf_mempar {w}.
+Arguments wf_pgnd {w}. Arguments wf_memnd {w}. Arguments wf_mempar {w}. Arguments wf_leaf {w}. Arguments wf_bound {w}. Arguments wf_datapar {w}.
 
 Lemma wf_shrink w w' : shrink w w' -> wf w -> wf w'.
 Proof.
@@ -533,6 +536,13 @@ Proof.
     eapply sub_NoDup; [exact S | eapply (wf_memnd H); exact H0].
   - intros o g l d Hl Hd. destruct (proj2 (es_pgs (sh_E Hs o)) g l Hl) as [l0 [H0 S]].
     rewrite (es_par (sh_E Hs d)). eapply (wf_mempar H); [exact H0 | eapply sub_In; eassumption].
+  - intros x Hk. rewrite (es_kind (sh_E Hs x)) in Hk. pose proof (es_ch (sh_E Hs x)) as S.
+    rewrite (wf_leaf H x Hk) in S. inversion S. reflexivity.
+  - intros o g l Hl. destruct (proj2 (es_pgs (sh_E Hs o)) g l Hl) as [l0 [H0 S]].
+    rewrite (sh_n Hs). destruct (wf_bound H o g l0 H0) as [Hg Hd]. split; [exact Hg|].
+    intros d Hd'. apply Hd. eapply sub_In; eassumption.
+  - intros p x Hx Hk. rewrite (es_kind (sh_E Hs p)). rewrite (es_kind (sh_E Hs x)) in Hk.
+    eapply (wf_datapar H); [|exact Hk]. eapply sub_In; [apply (es_ch (sh_E Hs p)) | exact Hx].
 Qed.
 
 Lemma desc_ge w e x : wf w -> desc w e x -> e <= x.
@@ -549,3 +559,425 @@ Proof.
   - rewrite (wf_par H e c Hc). constructor.
   - apply desc_step with c; [exact Hc | apply IH; exact Hne].
 Qed.
+
+Arguments desc_ge {w e x}. Arguments desc_parent {w e x}.
+
+(* ================= what parent.remove_children([e]) does to the parent's children list ================= *)
+Lemma ch_remove_pg w o g : In g (ch (E w o)) -> ch (E (remove_pg w o g) o) = remove_first g (ch (E w o)).
+Proof.
+  intros Hg. unfold remove_pg. rewrite E_del_fpg.
+  apply memb_In in Hg. rewrite Hg. rewrite E_upd_same. reflexivity.
+Qed.
+
+Lemma remove_pg_keep w o g x : x <> g -> In x (ch (E w o)) -> In x (ch (E (remove_pg w o g) o)).
+Proof.
+  intros Hx Hin. unfold remove_pg. rewrite E_del_fpg.
+  destruct (memb g (ch (E w o))); [|exact Hin]. rewrite E_upd_same. simpl.
+  apply remove_first_In_other; assumption.
+Qed.
+
+Definition keeps (w : st) (o x : nat) : Prop := In x (ch (E w o)) /\ ~ In x (ids (pgs (E w o))).
+
+Lemma rp_visit_keep w o d i g l x :
+  nth_error (pgs (E w o)) i = Some (g, l) -> keeps w o x -> keeps (rp_visit w o d i g l) o x.
+Proof.
+  intros Hn [Hin Hni].
+  assert (Hxg : x <> g).
+  { intros ->. apply Hni. unfold ids. change g with (fst (g, l)). apply in_map. eapply nth_error_In. exact Hn. }
+  split.
+  - unfold rp_visit. destruct (is_nil (remove_first d l)).
+    + apply remove_pg_keep; [exact Hxg|]. rewrite E_upd_same. exact Hin.
+    + rewrite E_write_fpg, E_upd_same. exact Hin.
+  - intros H. apply Hni. pose proof (rp_visit_shrink w o d i g l Hn) as Hs.
+    eapply sub_In; [apply (proj1 (es_pgs (sh_E Hs o))) | exact H].
+Qed.
+
+Lemma rdfg_loop_keep k : forall w o d i x, keeps w o x -> keeps (rdfg_loop k w o d i) o x.
+Proof.
+  induction k as [|k IH]; intros w o d i x H; simpl; [exact H|].
+  destruct (nth_error (pgs (E w o)) i) as [[g l]|] eqn:En; [|exact H].
+  apply IH. apply rp_visit_keep; assumption.
+Qed.
+
+Lemma rp_visit_id_keep w o d g x : keeps w o x -> keeps (rp_visit_id w o d g) o x.
+Proof.
+  intros H. unfold rp_visit_id. destruct (index_of g (pgs (E w o))) as [i|] eqn:Ei; [|exact H].
+  destruct (index_of_nth _ _ _ Ei) as [l Hl]. rewrite Hl. apply rp_visit_keep; assumption.
+Qed.
+
+Lemma fold_visit_keep o d x l : forall w, keeps w o x -> keeps (fold_left (fun w g => rp_visit_id w o d g) l w) o x.
+Proof. induction l as [|g r IH]; intros w H; simpl; [exact H|]. apply IH. apply rp_visit_id_keep. exact H. Qed.
+
+Lemma rdfg_keep c w o d x : keeps w o x -> keeps (rdfg c w o d) o x.
+Proof.
+  intros H. unfold rdfg. destruct (is_nil _); [exact H|].
+  destruct (snap_pg c); [apply fold_visit_keep | apply rdfg_loop_keep]; exact H.
+Qed.
+
+Lemma filter_neqb_In e l x : In x (filter (neqb e) l) <-> In x l /\ x <> e.
+Proof.
+  rewrite filter_In. unfold neqb. split; intros [H1 H2]; split; try exact H1.
+  - intros ->. rewrite Nat.eqb_refl in H2. discriminate.
+  - apply negb_true_iff. apply Nat.eqb_neq. congruence.
+Qed.
+
+Lemma parent_remove_child_children c w p e :
+  wf w -> In e (ch (E w p)) ->
+  ~ In e (ch (E (parent_remove_child c w p e) p)) /\
+  forall x, In x (ch (E w p)) -> x <> e -> ekind (E w x) <> KPG -> In x (ch (E (parent_remove_child c w p e) p)).
+Proof.
+  intros H He. unfold parent_remove_child.
+  assert (Grp : ~ In e (ch (E (group_remove_child w p e) p)) /\
+          forall x, In x (ch (E w p)) -> x <> e -> ekind (E w x) <> KPG -> In x (ch (E (group_remove_child w p e) p))).
+  { unfold group_remove_child. rewrite E_del_link, E_upd_same. simpl. split.
+    - intros Hin. apply filter_neqb_In in Hin. destruct Hin as [_ Hne]. congruence.
+    - intros x Hx Hne _. apply filter_neqb_In. split; assumption. }
+  destruct (ekind (E w p)); try exact Grp.
+  unfold object_remove_child.
+  assert (G : forall w', shrink w w' -> (forall x, keeps w p x -> keeps w' p x) ->
+     let w2 := del_link (if memb e (ch (E w p)) then upd w' p (fun r => set_ch r (remove_first e (ch r))) else w) p e in
+     ~ In e (ch (E w2 p)) /\
+     forall x, In x (ch (E w p)) -> x <> e -> ekind (E w x) <> KPG -> In x (ch (E w2 p))).
+  { intros w' Hs Hk w2. subst w2. rewrite E_del_link. apply memb_In in He. rewrite He.
+    rewrite E_upd_same. simpl. split.
+    - apply remove_first_not_in. eapply sub_NoDup; [apply (es_ch (sh_E Hs p)) | apply (wf_nodup H)].
+    - intros x Hx Hne Hkind. apply remove_first_In_other; [exact Hne|].
+      apply Hk. split; [exact Hx|]. intros Hi. apply Hkind. eapply (wf_pgk H). exact Hi. }
+  destruct (ekind (E w e)) eqn:Ek.
+  - apply (G w (shrink_refl w)). tauto.
+  - apply (G w (shrink_refl w)). tauto.
+  - apply (G (rdfg c w p e) (rdfg_shrink c w p e)). intros x. apply rdfg_keep.
+  - rewrite (ch_remove_pg w p e He). split.
+    + apply remove_first_not_in. apply (wf_nodup H).
+    + intros x Hx Hne _. apply remove_first_In_other; assumption.
+Qed.
+
+(* ================= attachment to the root; removal through the workspace prunes the tree ================= *)
+Inductive att (w : st) : nat -> Prop :=
+| att_root : att w 0
+| att_step p x : att w p -> In x (ch (E w p)) -> att w x.
+
+Lemma att_parent w e : wf w -> att w e -> e <> 0 -> att w (par (E w e)) /\ In e (ch (E w (par (E w e)))).
+Proof.
+  intros H Ha Hne. destruct Ha as [|p x Hp Hx]; [congruence|].
+  rewrite (wf_par H p x Hx). split; assumption.
+Qed.
+
+Arguments att_parent {w e}.
+
+Theorem remove_ws_tree c f w e w' :
+  wf w -> att w e -> e <> 0 -> remove_entity c f w e = (w', Ok) ->
+  let p := par (E w e) in
+  shrink w w' /\ frame (touched w e) w w'
+  /\ ~ In e (ch (E w' p))
+  /\ (forall x, In x (ch (E w p)) -> x <> e -> ekind (E w x) <> KPG -> In x (ch (E w' p)))
+  /\ (forall x, att w' x -> att w x /\ ~ desc w e x)
+  /\ (forall x, att w x -> ~ desc w e x -> ekind (E w x) <> KPG -> att w' x).
+Proof.
+  intros H Ha Hne Hr p.
+  destruct (remove_entity_fp c f w e w' Ok (wf_par H) Hr) as [Hs Hf].
+  destruct (att_parent H Ha Hne) as [Hap Hep]. fold p in Hap, Hep.
+  destruct f as [|f]; [simpl in Hr; discriminate|].
+  rewrite remove_entity_unfold in Hr.
+  destruct (negb (adel (E w e))); [discriminate|].
+  destruct (children_loop c f w e) as [w1 o1] eqn:Hl.
+  destruct (children_loop_fp c f w e w1 o1 (wf_par H) Hl) as [Hs1 Hf1].
+  destruct (is_ok o1) eqn:Eo; [|inversion Hr; subst; discriminate]. inversion Hr as [Hw']. clear Hr.
+  assert (Hpnd : ~ desc w e p).
+  { intros Hd. pose proof (desc_ge H Hd). destruct (wf_ord H p e Hep). lia. }
+  assert (Hp1 : E w1 p = E w p) by (apply Hf1; exact Hpnd).
+  assert (Hwf1 : wf w1) by (eapply wf_shrink; eassumption).
+  assert (Hep1 : In e (ch (E w1 p))) by (rewrite Hp1; exact Hep).
+  destruct (parent_remove_child_children c w1 p e Hwf1 Hep1) as [Ha1 Hb1].
+  assert (Hch : ch (E w' p) = ch (E (parent_remove_child c w1 p e) p)).
+  { rewrite <- Hw'. rewrite E_finish. reflexivity. }
+  assert (HA : ~ In e (ch (E w' p))) by (rewrite Hch; exact Ha1).
+  assert (HB : forall x, In x (ch (E w p)) -> x <> e -> ekind (E w x) <> KPG -> In x (ch (E w' p))).
+  { intros x Hx Hxe Hk. rewrite Hch. apply Hb1; [rewrite Hp1; exact Hx | exact Hxe |].
+    rewrite (es_kind (sh_E Hs1 x)). exact Hk. }
+  rewrite ?Hw'.
+  split; [exact Hs|]. split; [exact Hf|]. split; [exact HA|]. split; [exact HB|]. split.
+  - intros x Hx. induction Hx as [|q x Hq IH Hx].
+    + split; [constructor|]. intros Hd. pose proof (desc_ge H Hd). lia.
+    + destruct IH as [IHa IHd].
+      assert (Hxw : In x (ch (E w q))) by (eapply sub_In; [apply (es_ch (sh_E Hs q)) | exact Hx]).
+      split; [eapply att_step; eassumption|].
+      intros Hd. destruct (Nat.eq_dec x e) as [->|Hxe].
+      * assert (q = p) by (unfold p; symmetry; apply (wf_par H); exact Hxw). subst q. exact (HA Hx).
+      * apply IHd. pose proof (desc_parent H Hd Hxe) as Hd'. rewrite (wf_par H q x Hxw) in Hd'. exact Hd'.
+  - intros x Hx. induction Hx as [|q x Hq IH Hx]; intros Hnd Hk; [constructor|].
+    assert (Hqd : ~ desc w e q) by (intros Hd; apply Hnd; eapply desc_trans; [exact Hd | eapply desc_step; [exact Hx | constructor]]).
+    assert (Hqk : ekind (E w q) <> KPG).
+    { intros Hk'. rewrite (wf_leaf H q Hk') in Hx. destruct Hx. }
+    apply att_step with q; [apply IH; assumption|].
+    destruct (Nat.eq_dec q p) as [->|Hqp].
+    + apply HB; [exact Hx | | exact Hk]. intros ->. apply Hnd. constructor.
+    + rewrite (Hf q); [exact Hx|]. intros [Hd|Hd]; [exact (Hqd Hd) | exact (Hqp Hd)].
+Qed.
+
+(* ================= every history leads to a well-formed state ================= *)
+Lemma wf_same_shape w w' :
+  n w' = n w ->
+  (forall x, ekind (E w' x) = ekind (E w x) /\ par (E w' x) = par (E w x) /\ ch (E w' x) = ch (E w x) /\ pgs (E w' x) = pgs (E w x)) ->
+  wf w -> wf w'.
+Proof.
+  intros Hn HE H.
+  assert (Ek : forall x, ekind (E w' x) = ekind (E w x)) by (intros x; apply HE).
+  assert (Ep : forall x, par (E w' x) = par (E w x)) by (intros x; apply HE).
+  assert (Ec : forall x, ch (E w' x) = ch (E w x)) by (intros x; apply HE).
+  assert (Eg : forall x, pgs (E w' x) = pgs (E w x)) by (intros x; apply HE).
+  constructor.
+  - intros p x. rewrite Ec, Ep. apply (wf_par H).
+  - intros p x. rewrite Ec, Hn. apply (wf_ord H).
+  - intros p. rewrite Ec. apply (wf_nodup H).
+  - intros o g. rewrite Eg, Ek. apply (wf_pgk H).
+  - intros o. rewrite Eg. apply (wf_pgnd H).
+  - intros o g l. rewrite Eg. apply (wf_memnd H).
+  - intros o g l d. rewrite Eg, Ep. apply (wf_mempar H).
+  - intros x. rewrite Ek, Ec. apply (wf_leaf H).
+  - intros o g l. rewrite Eg, Hn. apply (wf_bound H).
+  - intros p x. rewrite Ec, !Ek. apply (wf_datapar H).
+Qed.
+
+Lemma wf_init : wf init.
+Proof.
+  constructor; unfold init, ids; simpl.
+  - intros p x [].
+  - intros p x [].
+  - intros p. constructor.
+  - intros o g [].
+  - intros o. constructor.
+  - intros o g l [].
+  - intros o g l d [].
+  - intros x _. reflexivity.
+  - intros o g l [].
+  - intros p x [].
+Qed.
+
+Lemma NoDup_app_snoc {A} (l : list A) x : NoDup l -> ~ In x l -> NoDup (l ++ [x]).
+Proof.
+  induction 1 as [|y r Hy Hr IH]; simpl; intros Hx; [constructor; [tauto | constructor]|].
+  constructor.
+  - intros Hin. apply in_app_or in Hin as [Hin|[Hin|[]]]; [exact (Hy Hin) | subst; apply Hx; left; reflexivity].
+  - apply IH. intros Hin. apply Hx. right. exact Hin.
+Qed.
+
+(* a new entity x = n w under p; p's record gains the child (and possibly one new property group) *)
+Lemma wf_add w w' k p extra :
+  wf w -> p < n w -> ekind (E w p) <> KPG ->
+  n w' = S (n w) ->
+  E w' (n w) = blank k p ->
+  (forall z, z <> n w -> z <> p -> E w' z = E w z) ->
+  ekind (E w' p) = ekind (E w p) -> par (E w' p) = par (E w p) ->
+  ch (E w' p) = ch (E w p) ++ [n w] -> pgs (E w' p) = pgs (E w p) ++ extra ->
+  (k = KData -> ekind (E w p) = KObject) ->
+  (extra = [] \/ exists l, extra = [(n w, l)] /\ k = KPG /\ NoDup l /\ forall d, In d l -> In d (ch (E w p))) ->
+  wf w'.
+Proof.
+  intros H Hp Hkp Hn Hx Hoth Hk Hpar Hch Hpgs Hdata Hex.
+  set (x := n w) in *.
+  assert (Hxp : p <> x) by (unfold x; lia).
+  assert (Kd : forall z, z <> x -> ekind (E w' z) = ekind (E w z)).
+  { intros z Hz. destruct (Nat.eq_dec z p) as [->|Hzp]; [exact Hk | rewrite Hoth by assumption; reflexivity]. }
+  assert (Pr : forall z, z <> x -> par (E w' z) = par (E w z)).
+  { intros z Hz. destruct (Nat.eq_dec z p) as [->|Hzp]; [exact Hpar | rewrite Hoth by assumption; reflexivity]. }
+  assert (Cx : ch (E w' x) = []) by (rewrite Hx; reflexivity).
+  assert (Gx : pgs (E w' x) = []) by (rewrite Hx; reflexivity).
+  assert (Co : forall z, z <> x -> z <> p -> ch (E w' z) = ch (E w z)) by (intros; rewrite Hoth by assumption; reflexivity).
+  assert (Go : forall z, z <> x -> z <> p -> pgs (E w' z) = pgs (E w z)) by (intros; rewrite Hoth by assumption; reflexivity).
+  assert (Chl : forall q z, In z (ch (E w' q)) -> (q = p /\ z = x) \/ (q <> x /\ In z (ch (E w q)))).
+  { intros q z Hz. destruct (Nat.eq_dec q x) as [->|Hqx]; [rewrite Cx in Hz; destruct Hz|].
+    destruct (Nat.eq_dec q p) as [->|Hqp].
+    - rewrite Hch in Hz. apply in_app_or in Hz as [Hz|[Hz|[]]]; [right; split; assumption | left; split; [reflexivity | symmetry; exact Hz]].
+    - rewrite Co in Hz by assumption. right. split; assumption. }
+  assert (Oldlt : forall q z, In z (ch (E w q)) -> z <> x) by (intros q z Hz; destruct (wf_ord H q z Hz); unfold x; lia).
+  assert (Pgl : forall o g l, In (g, l) (pgs (E w' o)) ->
+            (o = p /\ In (g, l) extra) \/ (o <> x /\ In (g, l) (pgs (E w o)))).
+  { intros o g l Hl. destruct (Nat.eq_dec o x) as [->|Hox]; [rewrite Gx in Hl; destruct Hl|].
+    destruct (Nat.eq_dec o p) as [->|Hop].
+    - rewrite Hpgs in Hl. apply in_app_or in Hl as [Hl|Hl]; [right; split; assumption | left; split; [reflexivity | exact Hl]].
+    - rewrite Go in Hl by assumption. right. split; assumption. }
+  constructor.
+  - intros q z Hz. destruct (Chl q z Hz) as [[-> ->]|[Hqx Hz']].
+    + rewrite Hx. reflexivity.
+    + rewrite Pr by (eapply Oldlt; exact Hz'). apply (wf_par H). exact Hz'.
+  - intros q z Hz. rewrite Hn. destruct (Chl q z Hz) as [[-> ->]|[Hqx Hz']].
+    + fold x. lia.
+    + destruct (wf_ord H q z Hz'). lia.
+  - intros q. destruct (Nat.eq_dec q x) as [->|Hqx]; [rewrite Cx; constructor|].
+    destruct (Nat.eq_dec q p) as [->|Hqp].
+    + rewrite Hch. apply NoDup_app_snoc; [apply (wf_nodup H)|]. intros Hin. exact (Oldlt p x Hin eq_refl).
+    + rewrite Co by assumption. apply (wf_nodup H).
+  - intros o g Hg. unfold ids in Hg. apply in_map_iff in Hg as [[g' l] [Hfst Hl]]. simpl in Hfst. subst g'.
+    destruct (Pgl o g l Hl) as [[-> Hin]|[Hox Hl']].
+    + destruct Hex as [->|[l0 [-> [Hkk _]]]]; [destruct Hin|].
+      destruct Hin as [Hin|[]]. inversion Hin; subst g l. rewrite Hx. simpl. exact Hkk.
+    + destruct (wf_bound H o g l Hl') as [Hg _]. rewrite Kd by (unfold x; lia).
+      apply (wf_pgk H o). unfold ids. change g with (fst (g, l)). apply in_map. exact Hl'.
+  - intros o. destruct (Nat.eq_dec o x) as [->|Hox]; [rewrite Gx; constructor|].
+    destruct (Nat.eq_dec o p) as [->|Hop].
+    + rewrite Hpgs. unfold ids. rewrite map_app. destruct Hex as [->|[l0 [-> _]]].
+      * simpl. rewrite app_nil_r. apply (wf_pgnd H).
+      * simpl. apply NoDup_app_snoc; [apply (wf_pgnd H)|]. intros Hin.
+        apply in_map_iff in Hin as [[g' l'] [Hfst Hl']]. simpl in Hfst. subst g'.
+        destruct (wf_bound H p x l' Hl') as [Hlt _]. unfold x in Hlt. lia.
+    + rewrite Go by assumption. apply (wf_pgnd H).
+  - intros o g l Hl. destruct (Pgl o g l Hl) as [[-> Hin]|[Hox Hl']].
+    + destruct Hex as [->|[l0 [-> [_ [Hnd _]]]]]; [destruct Hin|].
+      destruct Hin as [Hin|[]]. inversion Hin; subst. exact Hnd.
+    + eapply (wf_memnd H). exact Hl'.
+  - intros o g l d Hl Hd. destruct (Pgl o g l Hl) as [[-> Hin]|[Hox Hl']].
+    + destruct Hex as [->|[l0 [-> [_ [_ Hmem]]]]]; [destruct Hin|].
+      destruct Hin as [Hin|[]]. inversion Hin; subst.
+      pose proof (Hmem d Hd) as Hdc. rewrite Pr by (eapply Oldlt; exact Hdc). apply (wf_par H). exact Hdc.
+    + destruct (wf_bound H o g l Hl') as [_ Hb]. rewrite Pr by (pose proof (Hb d Hd); unfold x; lia).
+      eapply (wf_mempar H); eassumption.
+  - intros z Hz. destruct (Nat.eq_dec z x) as [->|Hzx]; [exact Cx|].
+    rewrite Kd in Hz by exact Hzx. destruct (Nat.eq_dec z p) as [->|Hzp]; [contradiction|].
+    rewrite Co by assumption. apply (wf_leaf H). exact Hz.
+  - intros o g l Hl. rewrite Hn. destruct (Pgl o g l Hl) as [[-> Hin]|[Hox Hl']].
+    + destruct Hex as [->|[l0 [-> [_ [_ Hmem]]]]]; [destruct Hin|].
+      destruct Hin as [Hin|[]]. inversion Hin; subst. fold x. split; [lia|].
+      intros d Hd. destruct (wf_ord H p d (Hmem d Hd)). lia.
+    + destruct (wf_bound H o g l Hl') as [Hg Hb]. split; [lia|]. intros d Hd. pose proof (Hb d Hd). lia.
+  - intros q z Hz Hkz. destruct (Chl q z Hz) as [[-> ->]|[Hqx Hz']].
+    + rewrite Hx in Hkz. simpl in Hkz. rewrite Hk. apply Hdata. exact Hkz.
+    + rewrite Kd in Hkz by (eapply Oldlt; exact Hz'). rewrite Kd by exact Hqx.
+      eapply (wf_datapar H); eassumption.
+Qed.
+
+Lemma wf_create w k p :
+  wf w -> p < n w -> ekind (E w p) <> KPG -> (k = KData -> ekind (E w p) = KObject) -> wf (create w k p).
+Proof.
+  intros H Hp Hk Hd.
+  assert (Hpx : Nat.eqb p (n w) = false) by (apply Nat.eqb_neq; lia).
+  apply wf_add with (w := w) (k := k) (p := p) (extra := []); try assumption; simpl.
+  - reflexivity.
+  - rewrite Nat.eqb_refl. reflexivity.
+  - intros z Hz Hzp. apply Nat.eqb_neq in Hz, Hzp. rewrite Hz, Hzp. reflexivity.
+  - rewrite Hpx, Nat.eqb_refl. reflexivity.
+  - rewrite Hpx, Nat.eqb_refl. reflexivity.
+  - rewrite Hpx, Nat.eqb_refl. reflexivity.
+  - rewrite Hpx, Nat.eqb_refl. simpl. rewrite app_nil_r. reflexivity.
+  - left. reflexivity.
+Qed.
+
+Lemma add_props_ok och isd : forall ds l,
+  NoDup l -> NoDup (add_props och isd l ds) /\ forall d, In d (add_props och isd l ds) -> In d l \/ In d och.
+Proof.
+  induction ds as [|d r IH]; intros l Hl; simpl; [split; [exact Hl | tauto]|].
+  destruct (memb d och && isd d && negb (memb d l)) eqn:Ec.
+  - apply andb_true_iff in Ec as [Ec Hnl]. apply andb_true_iff in Ec as [Hoch _].
+    apply negb_true_iff in Hnl. apply memb_false in Hnl. apply memb_In in Hoch.
+    destruct (IH (l ++ [d]) (NoDup_app_snoc l d Hl Hnl)) as [H1 H2]. split; [exact H1|].
+    intros x Hx. destruct (H2 x Hx) as [Hx'|Hx']; [|right; exact Hx'].
+    apply in_app_or in Hx' as [Hx'|[Hx'|[]]]; [left; exact Hx' | right; subst; exact Hoch].
+  - apply IH. exact Hl.
+Qed.
+
+Lemma n_write_fpg w g l : n (write_fpg w g l) = n w.
+Proof. unfold write_fpg. destruct (memb _ _); reflexivity. Qed.
+
+Lemma wf_set_members w o i g l0 l :
+  wf w -> nth_error (pgs (E w o)) i = Some (g, l0) -> NoDup l ->
+  (forall d, In d l -> In d l0 \/ In d (ch (E w o))) ->
+  wf (upd w o (fun r => set_pgs r (set_nth i (g, l) (pgs r)))).
+Proof.
+  intros H Hn Hnd Hmem.
+  set (w' := upd w o (fun r => set_pgs r (set_nth i (g, l) (pgs r)))).
+  assert (Hin0 : In (g, l0) (pgs (E w o))) by (eapply nth_error_In; exact Hn).
+  assert (Ek : forall x, ekind (E w' x) = ekind (E w x)) by (intros x; simpl; destruct (Nat.eqb x o); reflexivity).
+  assert (Ep : forall x, par (E w' x) = par (E w x)) by (intros x; simpl; destruct (Nat.eqb x o); reflexivity).
+  assert (Ec : forall x, ch (E w' x) = ch (E w x)) by (intros x; simpl; destruct (Nat.eqb x o); reflexivity).
+  assert (Eids : forall x, ids (pgs (E w' x)) = ids (pgs (E w x))).
+  { intros x. simpl. destruct (Nat.eqb x o) eqn:Ex; [|reflexivity]. apply Nat.eqb_eq in Ex. subst x.
+    simpl. unfold ids. apply (set_nth_ids i g l0 l _ Hn). }
+  assert (Eent : forall x h m, In (h, m) (pgs (E w' x)) -> (x = o /\ h = g /\ m = l) \/ In (h, m) (pgs (E w x))).
+  { intros x h m. simpl. destruct (Nat.eqb x o) eqn:Ex; [|tauto]. apply Nat.eqb_eq in Ex. subst x. simpl.
+    intros Hi. apply set_nth_In in Hi as [Hi|Hi]; [left; inversion Hi; auto | right; exact Hi]. }
+  constructor.
+  - intros p x. rewrite Ec, Ep. apply (wf_par H).
+  - intros p x. rewrite Ec. apply (wf_ord H).
+  - intros p. rewrite Ec. apply (wf_nodup H).
+  - intros x h. rewrite Eids, Ek. apply (wf_pgk H).
+  - intros x. rewrite Eids. apply (wf_pgnd H).
+  - intros x h m Hi. destruct (Eent x h m Hi) as [[-> [-> ->]]|Hi']; [exact Hnd | eapply (wf_memnd H); exact Hi'].
+  - intros x h m d Hi Hd. rewrite Ep. destruct (Eent x h m Hi) as [[-> [-> ->]]|Hi'].
+    + destruct (Hmem d Hd) as [Hd'|Hd']; [eapply (wf_mempar H); eassumption | apply (wf_par H); exact Hd'].
+    + eapply (wf_mempar H); eassumption.
+  - intros x. rewrite Ek, Ec. apply (wf_leaf H).
+  - intros x h m Hi. change (n w') with (n w). destruct (Eent x h m Hi) as [[-> [-> ->]]|Hi'].
+    + destruct (wf_bound H o g l0 Hin0) as [Hg Hb]. split; [exact Hg|]. intros d Hd.
+      destruct (Hmem d Hd) as [Hd'|Hd']; [apply Hb; exact Hd' | destruct (wf_ord H o d Hd'); lia].
+    + apply (wf_bound H x h m Hi').
+  - intros p x. rewrite Ec, !Ek. apply (wf_datapar H).
+Qed.
+
+Lemma attachedb_lt w x : attachedb w x = true -> x < n w.
+Proof. unfold attachedb. intros H. apply andb_true_iff in H as [H _]. apply Nat.ltb_lt. exact H. Qed.
+
+Lemma kind_eqb_eq a b : kind_eqb a b = true <-> a = b.
+Proof. destruct a, b; simpl; split; intros; congruence. Qed.
+
+Lemma E_fold_del_flat l : forall w, E (fold_left del_flat l w) = E w /\ n (fold_left del_flat l w) = n w.
+Proof. induction l as [|a r IH]; intros w; simpl; [split; reflexivity|]. destruct (IH (del_flat w a)) as [H1 H2]. rewrite H1, H2. split; reflexivity. Qed.
+
+Lemma wf_same_E w w' : n w' = n w -> E w' = E w -> wf w -> wf w'.
+Proof. intros Hn HE. apply wf_same_shape; [exact Hn|]. intros x. rewrite HE. repeat split; reflexivity. Qed.
+
+Lemma step_wf c w a : wf w -> wf (fst (step c w a)).
+Proof.
+  intros H. destruct a as [p|p|o|o ds|g ds|e b|e|e| |k|e]; simpl.
+  - destruct (attachedb w p && kind_eqb (ekind (E w p)) KGroup) eqn:G; [|exact H]. simpl.
+    apply andb_true_iff in G as [Ga Gk]. apply kind_eqb_eq in Gk.
+    apply wf_create; [exact H | apply attachedb_lt; exact Ga | congruence | discriminate].
+  - destruct (attachedb w p && kind_eqb (ekind (E w p)) KGroup) eqn:G; [|exact H]. simpl.
+    apply andb_true_iff in G as [Ga Gk]. apply kind_eqb_eq in Gk.
+    apply wf_create; [exact H | apply attachedb_lt; exact Ga | congruence | discriminate].
+  - destruct (attachedb w o && kind_eqb (ekind (E w o)) KObject) eqn:G; [|exact H]. simpl.
+    apply andb_true_iff in G as [Ga Gk]. apply kind_eqb_eq in Gk.
+    apply wf_create; [exact H | apply attachedb_lt; exact Ga | congruence | intros _; exact Gk].
+  - destruct (attachedb w o && kind_eqb (ekind (E w o)) KObject && negb (is_nil (add_props (ch (E w o)) (isdata w) [] ds))) eqn:G; [|exact H].
+    simpl. apply andb_true_iff in G as [G _]. apply andb_true_iff in G as [Ga Gk]. apply kind_eqb_eq in Gk.
+    pose proof (attachedb_lt w o Ga) as Hlt.
+    assert (Hox : Nat.eqb o (n w) = false) by (apply Nat.eqb_neq; lia).
+    destruct (add_props_ok (ch (E w o)) (isdata w) ds (NoDup_nil nat)) as [Hnd Hmem].
+    eapply wf_add with (w := w) (k := KPG) (p := o) (extra := [(n w, add_props (ch (E w o)) (isdata w) [] ds)]);
+      try exact H; try exact Hlt; try congruence; try rewrite E_write_fpg; try rewrite n_write_fpg; simpl.
+    + reflexivity.
+    + rewrite Nat.eqb_refl. reflexivity.
+    + intros z Hz Hzo. apply Nat.eqb_neq in Hz, Hzo. rewrite Hz, Hzo. reflexivity.
+    + rewrite Hox, Nat.eqb_refl. reflexivity.
+    + rewrite Hox, Nat.eqb_refl. reflexivity.
+    + rewrite Hox, Nat.eqb_refl. reflexivity.
+    + rewrite Hox, Nat.eqb_refl. reflexivity.
+    + right. eexists. split; [reflexivity|]. split; [reflexivity|]. split; [exact Hnd|].
+      intros d Hd. destruct (Hmem d Hd) as [[]|Hd']. exact Hd'.
+  - destruct (attachedb w g && kind_eqb (ekind (E w g)) KPG); [|exact H].
+    destruct (index_of g (pgs (E w (par (E w g))))) as [i|] eqn:Ei; [|exact H].
+    destruct (index_of_nth _ _ _ Ei) as [l0 Hl0]. rewrite Hl0. simpl.
+    set (o := par (E w g)) in *.
+    assert (Hnd0 : NoDup l0) by (eapply (wf_memnd H o g); eapply nth_error_In; exact Hl0).
+    destruct (add_props_ok (ch (E w o)) (isdata w) ds Hnd0) as [Hnd Hmem].
+    eapply wf_same_E; [apply n_write_fpg | apply E_write_fpg |].
+    eapply wf_set_members; eassumption.
+  - destruct (attachedb w e && negb (kind_eqb (ekind (E w e)) KPG) && negb (Nat.eqb e 0)); [|exact H]. simpl.
+    eapply wf_same_shape; [reflexivity | | exact H]. intros x. simpl. destruct (Nat.eqb x e); repeat split; reflexivity.
+  - destruct (attachedb w e && negb (Nat.eqb e 0)); [|exact H].
+    destruct (remove_entity c (fuel_of w) w e) as [w' o] eqn:Hr. simpl.
+    destruct (remove_entity_fp c (fuel_of w) w e w' o (wf_par H) Hr) as [Hs _]. eapply wf_shrink; eassumption.
+  - destruct (attachedb w e && negb (Nat.eqb e 0)); [|exact H]. simpl.
+    eapply wf_shrink; [apply parent_remove_child_shrink | exact H].
+  - eapply wf_same_E; [| |exact H]; reflexivity.
+  - destruct k; simpl;
+      try (destruct (is_nil _); exact H);
+      (eapply wf_same_E; [| |exact H]; simpl; [apply (proj2 (E_fold_del_flat _ w)) | apply (proj1 (E_fold_del_flat _ w))]).
+  - destruct (Nat.ltb e (n w)); [|exact H]. destruct (memb e (reg w)); [|exact H].
+    destruct (memb e (held w)); [exact H|]. simpl. eapply wf_same_E; [| |exact H]; reflexivity.
+Qed.
+
+Theorem run_wf c : forall h w, wf w -> wf (run c w h).
+Proof. induction h as [|a r IH]; intros w H; simpl; [exact H|]. apply IH. apply step_wf. exact H. Qed.
+
+Corollary reachable_wf c h : wf (run c init h).
+Proof. apply run_wf. apply wf_init. Qed.
